@@ -83,32 +83,32 @@ def parents_of(fn_node):
 
 def run(ctx: Ctx):
     f = ctx.func(MOD, "solve_milp")
-    check_units(ctx)
-    check_incumbent(ctx, f)
-    check_certified(ctx, f)
-    check_verdicts(ctx, f)
-    check_children(ctx, f)
-    check_tightening(ctx, f)
-    check_node_rows(ctx)
+    ctx.step(check_units)
+    ctx.step(check_incumbent, f)
+    ctx.step(check_certified, f)
+    ctx.step(check_verdicts, f)
+    ctx.step(check_children, f)
+    ctx.step(check_tightening, f)
+    ctx.step(check_node_rows)
 
 
 # -- O1 ------------------------------------------------------------------------------------------
-    check_certifier_and_slack(ctx)
+    ctx.step(check_certifier_and_slack)
     from .sat_common import _need
 
     sn = ctx.func("milp", "_solve_node")
-    _need(ctx, "C04-O11", "R18 table", sn, "node LP: variables with equal bounds are substituted, crossed bounds make the node infeasible", ["lo, hi = (lower[j], upper[j])\n        if hi < lo - eps:\n            return Result(None, float('inf') if minimize else float('-inf'), 0, 0, LPStatus.INFEASIBLE)\n        if hi - lo < eps:\n            fixed[j] = lo\n        else:\n            free_vars.append(j)"])
-    _need(ctx, "C04-O11", "R18 table", sn, "node LP: the right-hand side is reduced by the fixed part of each row, bounds become rows -x <= -lo and x <= hi", ["fixed_contrib = sum((row[j] * fixed[j] for j in fixed))\n        new_rhs = b[i] - fixed_contrib\n        A_red.append([row[j] for j in free_vars])\n        b_red.append(new_rhs)", "if lo > eps:\n            row = [0.0] * n_free\n            row[j_new] = -1.0\n            A_red.append(row)\n            b_red.append(-lo)", "if hi < float('inf'):\n            row = [0.0] * n_free\n            row[j_new] = 1.0\n            A_red.append(row)\n            b_red.append(hi)"])
-    _need(ctx, "C04-O11", "R5 PAIRING", sn, "node LP: the full point is rebuilt from fixed and free parts and the fixed part of the objective is added back", ["fixed_obj = sum((c[j] * fixed[j] for j in fixed))", "for j in fixed:\n        full_sol[j] = fixed[j]\n    for j_new, j_old in enumerate(free_vars):\n        full_sol[j_old] = result.solution[j_new]", "return Result(tuple(full_sol), result.objective + fixed_obj, result.iterations, result.iterations, result.status)"])
+    ctx.step(_need, "C04-O11", "R18 table", sn, "node LP: variables with equal bounds are substituted, crossed bounds make the node infeasible", ["lo, hi = (lower[j], upper[j])\n        if hi < lo - eps:\n            return Result(None, float('inf') if minimize else float('-inf'), 0, 0, LPStatus.INFEASIBLE)\n        if hi - lo < eps:\n            fixed[j] = lo\n        else:\n            free_vars.append(j)"])
+    ctx.step(_need, "C04-O11", "R18 table", sn, "node LP: the right-hand side is reduced by the fixed part of each row, bounds become rows -x <= -lo and x <= hi", ["fixed_contrib = sum((row[j] * fixed[j] for j in fixed))\n        new_rhs = b[i] - fixed_contrib\n        A_red.append([row[j] for j in free_vars])\n        b_red.append(new_rhs)", "if lo > eps:\n            row = [0.0] * n_free\n            row[j_new] = -1.0\n            A_red.append(row)\n            b_red.append(-lo)", "if hi < float('inf'):\n            row = [0.0] * n_free\n            row[j_new] = 1.0\n            A_red.append(row)\n            b_red.append(hi)"])
+    ctx.step(_need, "C04-O11", "R5 PAIRING", sn, "node LP: the full point is rebuilt from fixed and free parts and the fixed part of the objective is added back", ["fixed_obj = sum((c[j] * fixed[j] for j in fixed))", "for j in fixed:\n        full_sol[j] = fixed[j]\n    for j_new, j_old in enumerate(free_vars):\n        full_sol[j_old] = result.solution[j_new]", "return Result(tuple(full_sol), result.objective + fixed_obj, result.iterations, result.iterations, result.status)"])
     mf = ctx.func("milp", "_most_fractional")
-    _need(ctx, "C04-O11", "R18 table", mf, "branching variable: the integer variable farthest from an integer value; none -> the point is integral", ["for j in int_set:\n        val = solution[j]\n        frac = abs(val - round(val))\n        if frac > eps and frac > best_frac:\n            best_var, best_frac = (j, frac)", "return best_var"])
+    ctx.step(_need, "C04-O11", "R18 table", mf, "branching variable: the integer variable farthest from an integer value; none -> the point is integral", ["for j in int_set:\n        val = solution[j]\n        frac = abs(val - round(val))\n        if frac > eps and frac > best_frac:\n            best_var, best_frac = (j, frac)", "return best_var"])
     sm = ctx.func("milp", "solve_milp")
-    _need(ctx, "C04-O11", "R16 PAIRED-EFFECTS", sm, "branching: the left child caps the variable at floor(v), the right child raises it to ceil(v); both inherit the node's other bounds and the node's LP value as bound", ["val = result.solution[frac_var]\n        child_bound = sign * result.objective", "lower_left, upper_left = (list(node.lower), list(node.upper))\n        upper_left[frac_var] = floor(val)\n        heappush(tree, (child_bound, counter, Node(child_bound, tuple(lower_left), tuple(upper_left), node.depth + 1)))\n        counter += 1", "lower_right, upper_right = (list(node.lower), list(node.upper))\n        lower_right[frac_var] = ceil(val)\n        heappush(tree, (child_bound, counter, Node(child_bound, tuple(lower_right), tuple(upper_right), node.depth + 1)))\n        counter += 1"])
-    _need(ctx, "C04-O11", "R6 INCUMBENT", sm, "an integral node replaces the incumbent exactly when it is strictly better in the caller's sense", ["sol = tuple(result.solution)\n            sol_obj = result.objective", "if sign * sol_obj < sign * best_obj:\n                best_solution, best_obj = (sol, sol_obj)"])
-    _need(ctx, "C04-O11", "R1 STATUS-GUARD", sm, "a node is dropped unsolved only when its bound cannot beat the incumbent; a solved node is dropped when its LP is not optimal or its value cannot beat the incumbent", ["if best_solution is not None and node_bound >= sign * best_obj - eps:\n            continue", "result = _solve_node(c, A, b, node.lower, node.upper, minimize, eps, max_iter)", "if result.status != LPStatus.OPTIMAL:\n            if result.status == LPStatus.MAX_ITER:\n                lp_budget_hit = True\n            continue", "lp_budget_hit = False", "if best_solution is not None and sign * result.objective >= sign * best_obj - eps:\n            continue", "frac_var = _most_fractional(result.solution, int_set, eps)\n        if frac_var is None:"], "a pruning test that fires in other cases discards nodes that may hold the optimum while the emptied tree still yields OPTIMAL")
-    _need(ctx, "C04-O11", "R16 PAIRED-EFFECTS", sm, "the search starts from the root relaxation: its value (in minimisation form) is the root's bound and the root is the first open node", ["sign = 1 if minimize else -1", "root_bound = sign * root_result.objective\n    heappush(tree, (root_bound, counter, Node(root_bound, tuple(lower), tuple(upper), 0)))\n    counter += 1", "node_bound, _, node = heappop(tree)"], "without the root in the tree the loop never runs and whatever the heuristics found is labelled OPTIMAL")
-    _need(ctx, "C04-O6", "R1 STATUS-GUARD", ctx.func("milp", "_detect_binary"), "a variable counts as bounded by 1 only through a row with right-hand side 1 whose single non-zero entry - over all columns, continuous ones included - is a 1 in that integer column; all integer variables must be bounded that way", ["if abs(b[i] - 1.0) > eps:\n            continue", "nz = [(j, row[j]) for j in range(n) if abs(row[j]) > eps]", "if len(nz) == 1:\n            j, coef = nz[0]\n            if j in int_set and abs(coef - 1.0) < eps:\n                bounded.add(j)", "return len(bounded) == len(int_set) and len(int_set) > 0"], "a row such as x - 2y <= 1 with y continuous is no bound on x: taking it for one clamps x to [0, 1] in every node LP and a cut-off optimum is reported OPTIMAL")
-    _need(ctx, "C04-O11", "R6 INCUMBENT", sm, "heuristic incumbents: a warm start is taken only if it has the right length and is feasible, the LNS result only if it is strictly better than the incumbent, each with the objective recomputed from c", ["if len(ws) == n and _is_feasible(ws, A, b, int_set, eps):\n            best_obj = sum((c[j] * ws[j] for j in range(n)))\n            best_solution = ws", "improved_obj = sum((c[j] * improved[j] for j in range(n)))\n            if minimize and improved_obj < best_obj or (not minimize and improved_obj > best_obj):\n                best_solution, best_obj = (improved, improved_obj)", "best_obj = sum((c[j] * rounded[j] for j in range(n)))\n            best_solution = rounded"])
+    ctx.step(_need, "C04-O11", "R16 PAIRED-EFFECTS", sm, "branching: the left child caps the variable at floor(v), the right child raises it to ceil(v); both inherit the node's other bounds and the node's LP value as bound", ["val = result.solution[frac_var]\n        child_bound = sign * result.objective", "lower_left, upper_left = (list(node.lower), list(node.upper))\n        upper_left[frac_var] = floor(val)\n        heappush(tree, (child_bound, counter, Node(child_bound, tuple(lower_left), tuple(upper_left), node.depth + 1)))\n        counter += 1", "lower_right, upper_right = (list(node.lower), list(node.upper))\n        lower_right[frac_var] = ceil(val)\n        heappush(tree, (child_bound, counter, Node(child_bound, tuple(lower_right), tuple(upper_right), node.depth + 1)))\n        counter += 1"])
+    ctx.step(_need, "C04-O11", "R6 INCUMBENT", sm, "an integral node replaces the incumbent exactly when it is strictly better in the caller's sense", ["sol = tuple(result.solution)\n            sol_obj = result.objective", "if sign * sol_obj < sign * best_obj:\n                best_solution, best_obj = (sol, sol_obj)"])
+    ctx.step(_need, "C04-O11", "R1 STATUS-GUARD", sm, "a node is dropped unsolved only when its bound cannot beat the incumbent; a solved node is dropped when its LP is not optimal or its value cannot beat the incumbent", ["if best_solution is not None and node_bound >= sign * best_obj - eps:\n            continue", "result = _solve_node(c, A, b, node.lower, node.upper, minimize, eps, max_iter)", "if result.status != LPStatus.OPTIMAL:\n            if result.status == LPStatus.MAX_ITER:\n                lp_budget_hit = True\n            continue", "lp_budget_hit = False", "if best_solution is not None and sign * result.objective >= sign * best_obj - eps:\n            continue", "frac_var = _most_fractional(result.solution, int_set, eps)\n        if frac_var is None:"], "a pruning test that fires in other cases discards nodes that may hold the optimum while the emptied tree still yields OPTIMAL")
+    ctx.step(_need, "C04-O11", "R16 PAIRED-EFFECTS", sm, "the search starts from the root relaxation: its value (in minimisation form) is the root's bound and the root is the first open node", ["sign = 1 if minimize else -1", "root_bound = sign * root_result.objective\n    heappush(tree, (root_bound, counter, Node(root_bound, tuple(lower), tuple(upper), 0)))\n    counter += 1", "node_bound, _, node = heappop(tree)"], "without the root in the tree the loop never runs and whatever the heuristics found is labelled OPTIMAL")
+    ctx.step(_need, "C04-O6", "R1 STATUS-GUARD", ctx.func("milp", "_detect_binary"), "a variable counts as bounded by 1 only through a row with right-hand side 1 whose single non-zero entry - over all columns, continuous ones included - is a 1 in that integer column; all integer variables must be bounded that way", ["if abs(b[i] - 1.0) > eps:\n            continue", "nz = [(j, row[j]) for j in range(n) if abs(row[j]) > eps]", "if len(nz) == 1:\n            j, coef = nz[0]\n            if j in int_set and abs(coef - 1.0) < eps:\n                bounded.add(j)", "return len(bounded) == len(int_set) and len(int_set) > 0"], "a row such as x - 2y <= 1 with y continuous is no bound on x: taking it for one clamps x to [0, 1] in every node LP and a cut-off optimum is reported OPTIMAL")
+    ctx.step(_need, "C04-O11", "R6 INCUMBENT", sm, "heuristic incumbents: a warm start is taken only if it has the right length and is feasible, the LNS result only if it is strictly better than the incumbent, each with the objective recomputed from c", ["if len(ws) == n and _is_feasible(ws, A, b, int_set, eps):\n            best_obj = sum((c[j] * ws[j] for j in range(n)))\n            best_solution = ws", "improved_obj = sum((c[j] * improved[j] for j in range(n)))\n            if minimize and improved_obj < best_obj or (not minimize and improved_obj > best_obj):\n                best_solution, best_obj = (improved, improved_obj)", "best_obj = sum((c[j] * rounded[j] for j in range(n)))\n            best_solution = rounded"])
 
     generic_sweeps(ctx)
 
